@@ -52,6 +52,7 @@ def run(ctx):
         from rules import c15, c19
         ctx.run_rule("R8-toggle-use", c15.release_toggles, F, "R8-toggle-use")
         ctx.run_rule("R8-toggle-use", configured_toggle_readers, F, "R8-toggle-use")
+        ctx.run_rule("R8-toggle-use", dax_only_if_negotiated, F, "R8-toggle-use")
         if any(k.startswith("api::vfs::persist::") for k in F.fns):      # feature persist (absent in configuration D)
             ctx.run_rule("R1-options-roundtrip", c19.r1_options, F)
     finally:
@@ -433,6 +434,30 @@ def configured_toggle_readers(ctx, F, rule):
             ctx.check(rule, "configured-%s/%s/%s" % (mod, c, nm), nm in allowed,
                       "%s::%s reads the configured `%s` instead of the flag negotiated at INIT; only %s may read the configuration value" % (mod, nm, c, sorted(allowed)), loc=ob.loc())
         ctx.check(rule, "configured-%s/%s/init-reads" % (mod, c), "init" in got, "%s::init no longer consults the configured `%s`" % (mod, c))
+
+
+def dax_only_if_negotiated(ctx, F, rule):
+    """FUSE_ATTR_DAX is put into an entry's attribute flags only where per-file DAX was negotiated (runtime perfile_dax), for files
+    at least as large as the configured threshold."""
+    from rules import c18
+    b = F.method("passthrough::PassthroughFs", "do_lookup")
+    v = vf.VF(b, inline_depth=0)
+    sites = []
+    for bb in sorted(b.reachable()):
+        for i, s_ in enumerate(b.stmts(bb)):
+            if s_[0] == "=" and s_[2][0] in ("bin", "use"):
+                t = vf.render(v.rvalue(s_[2], bb, i), b, short=True, vfx=v)
+                if t == "FUSE_ATTR_DAX" or t.startswith("BitOr(FUSE_ATTR_DAX") or t.endswith(", FUSE_ATTR_DAX)"):
+                    sites.append(bb)
+    ok = bool(sites)
+    bad = []
+    for bb in sorted(set(sites)):
+        for pf in c18.path_facts(b, v, bb):
+            if not any(t == "Atomic::load(self.perfile_dax, Relaxed)" and l != 0 for (t, l) in pf) or \
+                    not any(t.startswith("Le(some(self.cfg.dax_file_size), ") and l != 0 for (t, l) in pf):
+                bad.append([(t[:50], l) for (t, l) in pf if "dax" in t.lower()])
+    ctx.check(rule, "dax-flag/only-if-negotiated", ok and not bad,
+              "do_lookup sets FUSE_ATTR_DAX on a path that has not established `perfile_dax negotiated` and `size >= threshold`: %s" % (bad[:2] or "no site found"), loc=b.loc())
 
 
 def vfs_destroy(ctx, F, rule):
